@@ -95,7 +95,8 @@ type Shared struct {
 	// Gate, when set, is called before every storage call outside the lock
 	// (schedule replay).
 	Gate func(p int)
-	// After, when set, is called with the store lock held after the call
+	// After, when set, is called after every storage call of session p (lock released)
+	After func(p int)
 	Quiet bool // do not log (speed)
 }
 
@@ -125,6 +126,9 @@ func (r *Rec) end(ev Event) {
 		r.sh.Log = append(r.sh.Log, ev)
 	}
 	r.sh.St.mu.Unlock()
+	if r.sh.After != nil {
+		r.sh.After(r.p)
+	}
 }
 
 // Mark appends a non-storage event (poll boundaries) under the lock.
